@@ -6,8 +6,10 @@ on which it may *evaluate* a definition (EVAL: `.read()`, `.text`, `.composite_t
 its body does; effects of callees are taken from the callee's declared contract.  Provenances:
 
   SELF      the receiver of a DSDLDefinition method                 TARGET    element of a target list
-  RESOLVED  element selected by the name+version filter of a reference (DataTypeBuilder.resolve_versioned_data_type;
-            that this filter is exactly "the definition the referrer names" is proved under C09)
+  RESOLVED  element of a lookup list selected by a predicate that constrains both its full name and its version, in any
+            spelling (filter + lambda, comprehension with `if`, `if` in a loop, next(generator)); only in
+            DataTypeBuilder.resolve_versioned_data_type (that this selection is exactly "the definition the referrer
+            names" is proved under C09); a selection on the name only, or without predicate, stays ANY
   ANY       element of a lookup list                                RESULT    composite types produced by reading
   OWN       the definition a builder works for                      ARG       provenance-polymorphic parameter
 
